@@ -17,7 +17,7 @@ REBASED = {
     "C20-truncate-bytelen": "byte-length early return re-applied to the rewritten Truncate",
 }
 # checks of other properties that are known to catch a seed as well (or instead)
-EXTRA = {"C20-r2-falsy-arg-zero": ["C12"], "C08-r2-nil-element-outer": ["C10"], "C16-nil-arg-shadow": ["C10"]}
+EXTRA = {"C20-r2-falsy-arg-zero": ["C12"], "C08-r2-nil-element-outer": ["C10"], "C16-nil-arg-shadow": ["C10"], "C19-r3-iterator-continue": ["C08"], "C16-r3-value-nil-fallthrough": ["C10"], "C12-r3-errors-as-swallow": ["C05"]}
 only = sys.argv[1:]
 rows = []
 for name in sorted(os.listdir("seeded")):
